@@ -1,9 +1,10 @@
 import subprocess,sys
 prof=sys.argv[1]; seed=int(sys.argv[2]); n=int(sys.argv[3]); ops=int(sys.argv[4]) if len(sys.argv)>4 else 40
+img=sys.argv[5] if len(sys.argv)>5 else 'format'
 sys.argv=['x']
 exec(open('/verif/check').read().split("def main():")[0])
 rep=Report('X','quick',seed)
-inputs,impl,model=run_seq('/verif/out/tmp2',seed,n,ops,prof)
+inputs,impl,model=run_seq('/verif/out/tmp2',seed,n,ops,prof,extra=['--img',img],rep=rep)
 compare_seq(rep,inputs,impl,model,M_TAGS,{"flat","reopen"})
 print(prof,'evals',rep.evaluations,'mdiffs',len(rep.model_diffs),'ofails',len(rep.oracle_fails))
 sigs={}
